@@ -112,3 +112,107 @@ impl Clone for Aspa {
 // routinator's PayloadInfo: not used by the delta code beyond being passed along.
 #[verifier::external_body]
 pub struct PayloadInfo { _opaque: () }
+
+// ---------------------------------------------------------------- PayloadDelta's environment
+// rpki::rtr::Serial: a transparent u32 newtype. `add` wraps modulo 2^32 (ASSUMED here; the history
+// unit discharges the same contract against the real rpki code with a Kani harness).
+#[derive(Clone, Copy)]
+pub struct Serial(pub u32);
+pub open spec fn wadd(a: u32, b: int) -> u32 { ((a as int + b) % 0x1_0000_0000) as u32 }
+impl Serial {
+    #[verifier::external_body]
+    pub fn add(self, other: u32) -> (r: Serial)
+        requires other <= 0x7FFF_FFFF,
+        ensures r.0 == wadd(self.0, other as int),
+    { unimplemented!() }
+}
+
+// rpki::rtr::payload::{RouteOrigin, RouterKey}: opaque values with derived Clone and Ord.
+// ASSUMED: clone returns an equal value. Their order is not modelled; `total_order::<..>()` is an
+// explicit precondition wherever used.
+#[verifier::external_body]
+pub struct RouteOrigin { _opaque: () }
+impl Clone for RouteOrigin {
+    #[verifier::external_body]
+    fn clone(&self) -> (r: RouteOrigin) ensures r == *self { unimplemented!() }
+}
+impl PartialEq for RouteOrigin {
+    #[verifier::external_body]
+    fn eq(&self, other: &RouteOrigin) -> bool { unimplemented!() }
+}
+impl Eq for RouteOrigin {}
+impl PartialOrd for RouteOrigin {
+    #[verifier::external_body]
+    fn partial_cmp(&self, other: &RouteOrigin) -> Option<Ordering> { unimplemented!() }
+}
+impl Ord for RouteOrigin {
+    #[verifier::external_body]
+    fn cmp(&self, other: &RouteOrigin) -> Ordering { unimplemented!() }
+}
+#[verifier::external_body]
+pub struct RouterKey { _opaque: () }
+impl Clone for RouterKey {
+    #[verifier::external_body]
+    fn clone(&self) -> (r: RouterKey) ensures r == *self { unimplemented!() }
+}
+impl PartialEq for RouterKey {
+    #[verifier::external_body]
+    fn eq(&self, other: &RouterKey) -> bool { unimplemented!() }
+}
+impl Eq for RouterKey {}
+impl PartialOrd for RouterKey {
+    #[verifier::external_body]
+    fn partial_cmp(&self, other: &RouterKey) -> Option<Ordering> { unimplemented!() }
+}
+impl Ord for RouterKey {
+    #[verifier::external_body]
+    fn cmp(&self, other: &RouterKey) -> Ordering { unimplemented!() }
+}
+
+// routinator's PayloadSnapshot: three data sets. Abstract here: the ghost sequences are what the
+// accessors iterate over. ASSUMED: each accessor returns a lawful finite iterator over
+// (item, info) pairs whose items are, in order, the data set (all of it if the iterator is run to
+// completion, a prefix of it otherwise).
+#[verifier::external_body]
+pub struct PayloadSnapshot { _opaque: () }
+
+#[verifier::external_body]
+#[verifier::reject_recursive_types(T)]
+pub struct CollIter<'a, T> { _p: &'a T }
+impl<'a, T> Iterator for CollIter<'a, T> {
+    type Item = (&'a T, &'a PayloadInfo);
+    #[verifier::external_body]
+    fn next(&mut self) -> Option<(&'a T, &'a PayloadInfo)> { unimplemented!() }
+}
+
+pub open spec fn pair_firsts<T>(s: Seq<(&T, &PayloadInfo)>) -> Seq<T> { s.map_values(|x: (&T, &PayloadInfo)| *x.0) }
+
+impl PayloadSnapshot {
+    pub uninterp spec fn origins_spec(&self) -> Seq<RouteOrigin>;
+    pub uninterp spec fn router_keys_spec(&self) -> Seq<RouterKey>;
+    pub uninterp spec fn aspas_spec(&self) -> Seq<Aspa>;
+
+    #[verifier::external_body]
+    pub fn origin_refs(&self) -> (r: CollIter<'_, RouteOrigin>)
+        ensures
+            r.obeys_prophetic_iter_laws(), r.decrease() is Some,
+            pair_firsts(r.remaining()).is_prefix_of(self.origins_spec()),
+            r.will_return_none() ==> pair_firsts(r.remaining()) == self.origins_spec(),
+    { unimplemented!() }
+
+    #[verifier::external_body]
+    pub fn router_keys(&self) -> (r: CollIter<'_, RouterKey>)
+        ensures
+            r.obeys_prophetic_iter_laws(), r.decrease() is Some,
+            pair_firsts(r.remaining()).is_prefix_of(self.router_keys_spec()),
+            r.will_return_none() ==> pair_firsts(r.remaining()) == self.router_keys_spec(),
+    { unimplemented!() }
+
+    #[verifier::external_body]
+    pub fn aspas(&self) -> (r: CollIter<'_, Aspa>)
+        ensures
+            r.obeys_prophetic_iter_laws(), r.decrease() is Some,
+            pair_firsts(r.remaining()).is_prefix_of(self.aspas_spec()),
+            r.will_return_none() ==> pair_firsts(r.remaining()) == self.aspas_spec(),
+    { unimplemented!() }
+}
